@@ -60,12 +60,13 @@ func lcSeqs(ns []*lcNode) *lcNode {
 type lcErr struct{ msg string }
 
 type lcX struct {
-	fset    *token.FileSet
-	funcs   map[string]*ast.FuncDecl // "App.m" for methods on *App / App, "f" for functions
-	hasInt  map[string]int           // memo: 0 unknown, 1 computing, 2 no, 3 yes
-	stack   map[string]bool
-	goBody  *lcNode // body of the `go func(){…}()` found while walking (runServer has exactly one)
-	goCount int
+	fset      *token.FileSet
+	funcs     map[string]*ast.FuncDecl // "App.m" for methods on *App / App, "f" for functions
+	hasInt    map[string]int           // memo: 0 unknown, 1 computing, 2 no, 3 yes
+	stack     map[string]bool
+	goBody    *lcNode // body of the `go func(){…}()` found while walking (runServer has exactly one)
+	goCount   int
+	loopLabel string // label on the event loop itself, when it is left by `break <label>` instead of `goto`
 }
 
 func (x *lcX) fail(n ast.Node, format string, a ...any) {
@@ -338,6 +339,10 @@ func (x *lcX) stmt(s ast.Stmt) *lcNode {
 		if v.Tok == token.GOTO && v.Label != nil {
 			return &lcNode{kind: "G", name: v.Label.Name}
 		}
+		// `break <label of the event loop>` is the same control flow as `goto <label right after the loop>`
+		if v.Tok == token.BREAK && v.Label != nil && x.loopLabel != "" && v.Label.Name == x.loopLabel {
+			return &lcNode{kind: "G", name: "after " + x.loopLabel}
+		}
 		x.fail(v, "branch statement %s", v.Tok)
 	case *ast.DeferStmt:
 		// deferred calls run when the function returns; none of the calls of interest may hide there
@@ -438,6 +443,8 @@ func (x *lcX) tryIdiom(v *ast.IfStmt) (*lcNode, bool) {
 	return body, true
 }
 
+func isFor(s ast.Stmt) bool { _, ok := s.(*ast.ForStmt); return ok }
+
 type lcOut struct {
 	name string
 	term *lcNode
@@ -521,6 +528,9 @@ func lcExtract(repo string) []lcOut {
 		case loop == nil:
 			if f, ok := s.(*ast.ForStmt); ok {
 				loop = f
+			} else if ls, ok := s.(*ast.LabeledStmt); ok && isFor(ls.Stmt) {
+				loop = ls.Stmt.(*ast.ForStmt)
+				x.loopLabel = ls.Label.Name
 			} else {
 				pre = append(pre, s)
 			}
@@ -576,6 +586,10 @@ func lcExtract(repo string) []lcOut {
 		}
 		ls, ok := post[0].(*ast.LabeledStmt)
 		if !ok {
+			if x.loopLabel != "" {
+				// the loop is left by `break <its label>`: what follows it plays the part of the labelled statement
+				return lcSeq(&lcNode{kind: "C", name: "label", qual: "after " + x.loopLabel}, x.block(post))
+			}
 			x.fail(post[0], "the statement after the event loop carries no label")
 		}
 		rest := append([]ast.Stmt{ls.Stmt}, post[1:]...)
@@ -596,6 +610,8 @@ func lcExtract(repo string) []lcOut {
 		if len(post) > 0 {
 			if ls, ok := post[0].(*ast.LabeledStmt); ok {
 				label = ls.Label.Name
+			} else if x.loopLabel != "" {
+				label = "after " + x.loopLabel
 			}
 		}
 		out = append(out, lcOut{name: "shapes", text: x.shapes(armNames, label)})
